@@ -194,9 +194,22 @@ def _run_unit_once(unit_name, unit_path, workdir, repo, rlimit, extra_args, time
     if res.status == 'undecided':
         return res
     lost_by_fn = {}
+    try:
+        gen_text = open(gen).read()
+    except Exception:
+        gen_text = ''
     for m in ex.functions:
         if m.get('lost_splices'):
-            lost_by_fn[m['emitted_as']] = m['lost_splices']
+            lost_by_fn[m['emitted_as']] = list(m['lost_splices'])
+        opaque = opaque_ops(gen_text, m.get('new_ops') or [])
+        if m.get('new_closures'):
+            opaque.append('%d new closure(s)' % m['new_closures'])
+        if opaque:
+            # the body now applies operations that were not in it when its contract and proof were
+            # written and for which the contract set holds no meaning (a closure Verus cannot see
+            # through, a stand-in without a postcondition): a failed proof of this function is not a verdict
+            lost_by_fn.setdefault(m['emitted_as'], []).append(
+                'body now uses operations the contract set has no meaning for: ' + ', '.join(opaque[:8]))
     res.lost_splices = lost_by_fn
     hint_lost = [f for f in res.failures if f['fn'] in lost_by_fn]
     if hint_lost:
@@ -228,6 +241,27 @@ def _where(ex, d):
                 o = ex.out.origin[gl - 1]
                 return '%s:%d' % (o[1], o[2])
     return '?'
+
+
+def opaque_ops(gen_text, names):
+    """Of the operation names new to a function body, those declared in the generated unit as an
+    external_body stand-in WITHOUT any postcondition (their result is unconstrained for the proof).
+    Constructors, functions under contract and vstd-specified functions are not opaque."""
+    out = []
+    for n in names:
+        if n.endswith('!') or not n or n[0].isupper():
+            continue
+        for mm in re.finditer(r'\bfn\s+%s\b' % re.escape(n), gen_text):
+            pre = gen_text[max(0, mm.start() - 300):mm.start()]
+            j = gen_text.find('{', mm.end())
+            k = gen_text.find(';', mm.end())
+            end = j if j != -1 and (k == -1 or j < k) else k
+            sig = gen_text[mm.end():end if end != -1 else mm.end() + 400]
+            is_stub = 'external_body' in pre.split('}')[-1]
+            if is_stub and not re.search(r'\b(ensures|returns)\b', sig):
+                out.append(n)
+                break
+    return out
 
 
 FN_RE = re.compile(r'\b(?:proof\s+|spec\s+|exec\s+)?fn\s+(\w+)')
